@@ -28,7 +28,7 @@ REQUIRED_DIMS = ["integrator:" + i for i in ac.INTEGRATORS] + [
     "history:nothing_changed", "history:array_vanishes", "history:array_appears", "history:particles_to_zero", "history:merge_collision",
     "history:integrator_switch", "history:reset_integrator", "history:single_field_change", "history:synchronize",
     "cadence:interval", "cadence:step", "cadence:walltime", "cadence:mixed_manual", "scale:archive>1024", "scale:archive>2048",
-    "scale:counter>=2^32", "scale:huge_N", "python_api:getitem", "python_api:getitem_negative", "python_api:iteration",
+    "scale:counter>=2^32", "scale:counter>=2^32_in_history", "scale:huge_N", "restart:residual_tail", "python_api:getitem", "python_api:getitem_negative", "python_api:iteration",
     "python_api:getSimulation_snapshot_between", "python_api:getSimulation_exact", "python_api:getSimulation_close",
     "python_api:getSimulations", "python_api:tmin_tmax", "python_api:Simulation(filename,snapshot)", "python_api:delete_file",
     "python_api:delete_file_interval_rearmed"]
@@ -347,7 +347,9 @@ def big_counter_case(c, rebound, exe, W, stats, dims):
         sa = rebound.Simulationarchive(fn, process_warnings=False)
         last = sa[-1]
         json.dump(dict(nblobs=int(sa.nblobs), last_steps=int(last.steps_done), live_steps=int(sim.steps_done),
-                       next_step=int(sim.simulationarchive_next_step), last_next=int(last.simulationarchive_next_step)), open(os.path.join(wd, "res.json"), "w"))
+                       next_step=int(sim.simulationarchive_next_step), last_next=int(last.simulationarchive_next_step),
+                       loaded_steps=[int(sa[i].steps_done) for i in range(sa.nblobs)],
+                       loaded_next=[int(sa[i].simulationarchive_next_step) for i in range(sa.nblobs)]), open(os.path.join(wd, "res.json"), "w"))
     rc = ac.fork_run(child, timeout=60)
     if rc != 0 or not os.path.exists(os.path.join(wd, "res.json")):
         c.violation("counter:died", "step cadence across steps_done = 2^32 kills the process (status %s)" % rc, dict(start=start))
@@ -358,12 +360,16 @@ def big_counter_case(c, rebound, exe, W, stats, dims):
     sds = []
     for j, bl in enumerate(blobs):
         recs = ac.overlay(recs0, bl["recs"]) if j else bl["recs"]
-        sds.append(struct.unpack("<Q", ac.rec_value(recs, ac.STEPS))[0])
+        sds.append(int.from_bytes(ac.rec_value(recs, ac.STEPS), "little"))       # whatever size the writer used
     want = [start + 2 * j for j in range(len(sds))]
     o = run_driver(exe, ["cadstep 2 %d %s" % (start, " ".join(str(start + i) for i in range(13)))])[0].split()
     dims["scale:counter>=2^32"] = dims.get("scale:counter>=2^32", 0) + len([x for x in sds if x >= 2 ** 32])
     c.count(("counter", len(sds)), n=len(sds))
     rep = dict(start=start, snapshots_at=sds, reader=res, model=o)
+    wantL = [start + 2 * j for j in range(res["nblobs"])]
+    if res["loaded_steps"] != wantL or res["loaded_next"] != [x + 2 for x in wantL] or res["last_steps"] != res["live_steps"]:
+        c.violation("counter:restored-steps_done", "snapshots taken at steps_done %s ... are restored with steps_done %s, next_step %s (live at the end: %d)" % (
+            wantL[:4], res["loaded_steps"][:4], res["loaded_next"][:4], res["live_steps"]), rep)
     if sds != want or res["nblobs"] != len(sds) or res["last_steps"] != sds[-1] or res["last_next"] != sds[-1] + 2:
         c.violation("counter:steps_done-2^32", "step cadence across steps_done = 2^32: snapshots at %s, want %s" % (sds, want), rep)
     if o[0].count("1") != len(sds):
@@ -466,7 +472,7 @@ def _run(c, rebound, exe, W):
                       "delta law stated for an exact comparison and, for any comparison, up to what it calls 'same'"]
     stats = dict(histories=0, appends=0, bytes_equal=0, index_equal=0, snapshots_decoded=0, child_crash=0, skipped_ops=0,
                  vanish_histories=0, appear_histories=0, shrink_zero=0, same_t0=0, auto_histories=0, auto_snapshots=0,
-                 lagging=0, reduced_oracle_histories=0, auto_forward=0, auto_backward=0, auto_mixed=0, cadence_segments_model_equal=0, single_change_snapshots=0, reader_overflow=0, model_undefined=0, eq_checked=0, fieldwise_checked=0, link_true=0, merges=0, nocapture=0)
+                 lagging=0, live_value_checks=0, reduced_oracle_histories=0, auto_forward=0, auto_backward=0, auto_mixed=0, cadence_segments_model_equal=0, single_change_snapshots=0, reader_overflow=0, model_undefined=0, eq_checked=0, fieldwise_checked=0, link_true=0, merges=0, nocapture=0)
     integ_hist = {}
     hazards = {}
     dims = {}
@@ -479,6 +485,11 @@ def _run(c, rebound, exe, W):
         big_archive(c, rebound, exe, V, W, nbig, stats)
     for iw in range(6 if c.thorough else 2):
         wall_case(c, rebound, exe, W, stats, c.rng.fork(), iw)
+    for irt in range(8 if c.thorough else 2):
+        rr = ac.residual_tail_case(c, rebound, run_driver, exe, V, os.path.join(W, "rtail%d" % irt), c.rng.fork(), irt + 4 * irt)
+        if rr:
+            dims["restart:residual_tail"] = dims.get("restart:residual_tail", 0) + 1
+            stats["residual_tail_model_appends_equal"] = stats.get("residual_tail_model_appends_equal", 0) + rr["model_appends_equal"]
     api_case(c, rebound, W, stats, dims, c.rng.fork())
     big_counter_case(c, rebound, exe, W, stats, dims)
     if stats.get("wall_runs"):
@@ -664,6 +675,8 @@ def _run(c, rebound, exe, W):
                 D.add("variational:second_order")
             elif o[0] == "change":
                 D.add("history:single_field_change")
+            elif o[0] == "setsteps":
+                D.add("scale:counter>=2^32_in_history")
             elif o[0] == "sett":
                 D.add({"t0": "time:repeats_t0_later", "prev": "time:goes_backwards"}.get(o[1], "time:huge_t" if isinstance(o[1], float) and abs(o[1]) > 1e12 else "time:goes_backwards"))
         if any(p_.get("m") == 0.0 for p_ in hist["init"]["particles"][1:]):
@@ -772,6 +785,14 @@ def _run(c, rebound, exe, W):
                     V(K_F18, "snapshot %d restores +0.0 where the live particle coordinate was -0.0 (reb_particle_diff compares with !=)" % k, rep)
                 else:
                     V("snapshot-differs:%s" % key[0], "snapshot %d differs from the live state in field ids %s (file) / %s (loader)" % (k, dd[:8], dl[:8]), rep)
+            lv = meta["appends"][k].get("live")
+            rv_ = back["vals"][k] if k < len(back.get("vals", [])) else None
+            if lv is not None and rv_ is not None:
+                stats["live_value_checks"] += 1
+                bad = sorted(a_ for a_ in lv if lv[a_] != rv_.get(a_))
+                if bad:
+                    V("restored-value:%s" % bad[0], "snapshot %d restores %s = %r, the live simulation had %r (compared on the structs, not on streams)" % (
+                        k, bad[0], rv_.get(bad[0]), lv[bad[0]]), rep)
             e = back["eq"][k] if k < len(back.get("eq", [])) else None
             if meta["appends"][k]["selfeq"] and e is not None:
                 stats["eq_checked"] += 1
